@@ -172,13 +172,52 @@ def desc_val(d):
     raise ValueError(d)
 
 
+# ------------------------------------------------------------------------------ which variant does the tree implement?
+_T1 = {"dtype": "float32", "shape": [2], "data": [5, 6]}
+PROBES = {
+    "D12": {"kind": "states", "W": 2, "group": [0, 1], "dst": None,
+            "members": [{"m": {"x": {"list": []}}}, {"m": {"x": {"list": []}}}]},
+    "D9": {"kind": "states", "W": 3, "group": [1, 2], "dst": None,
+           "members": [{"m": {"x": {"list": []}}}, {"m": {"x": {"list": [_T1]}}}]},
+    "DST": {"kind": "send", "W": 3, "group": [1, 2], "dst": 1, "members": [_T1, {"dtype": "float32", "shape": [3], "data": [1, 2, 3]}]},
+}
+_VARIANT = None
+
+
+def detect_variant():
+    """The correspondence DECIDES which variant of the model the tree implements (DESIGN 2.3): the three
+    witness scenarios are run on the real code; returns {"D12": fixed?, "D9": fixed?, "DST": fixed?}."""
+    global _VARIANT
+    if _VARIANT is not None:
+        return _VARIANT
+    v = {}
+    out, _ = run_sim(PROBES["D12"])
+    v["D12"] = out[0][0] == "ok" and out[0][1] != NONE and out[0][1][0][0][2] == []
+    out, _ = run_sim(PROBES["D9"])
+    v["D9"] = all(out[r][0] == "ok" for r in (1, 2))
+    out, _ = run_sim(PROBES["DST"])
+    v["DST"] = all(out[r][0] == "ok" for r in (1, 2))
+    _VARIANT = v
+    return v
+
+
+def variant_val():
+    v = detect_variant()
+    return [v["D12"], v["D9"], v["DST"]]
+
+
+def variant_note():
+    v = detect_variant()
+    return "model variant decided by the correspondence: " + ", ".join(f"{k}={'V_fixed' if x else 'V_code'}" for k, x in v.items())
+
+
 # ------------------------------------------------------------------------------ model side
 def model_case(scn):
     g = list(scn["group"])
     if scn["kind"] == "send":
-        return ("sync_send", [scn["W"], g, scn["dst"], [tval(t) for t in scn["members"]]])
+        return ("sync_send", [scn["W"], g, scn["dst"], variant_val(), [tval(t) for t in scn["members"]]])
     if scn["kind"] == "states":
-        return ("sync_states", [scn["W"], g, scn["dst"], [mdict_val({m: dict(sd) for m, sd in md.items()}) for md in scn["members"]]])
+        return ("sync_states", [scn["W"], g, scn["dst"], variant_val(), [mdict_val({m: dict(sd) for m, sd in md.items()}) for md in scn["members"]]])
     if scn["kind"] == "toolkit":
         return toolkit_model_case(scn)
     raise ValueError(scn["kind"])
@@ -462,7 +501,7 @@ def toolkit_model_case(scn):
         for mspec in member:
             md["tmp" if not coll else mspec[0]] = prepared_state_dict(build_metric(mspec))
         mds.append(mdict_val(md))
-    return ("sync_toolkit", [scn["W"], g, 1 if coll else 0, mds])
+    return ("sync_toolkit", [scn["W"], g, 1 if coll else 0, variant_val(), mds])
 
 
 def result_val(x):
